@@ -36,6 +36,20 @@ V1_PRIORS = {
     "garbage": "c3c3c3c3c3c3c3c3",
 }
 
+
+
+def typed_priors(fmt: str) -> dict:
+    """First-group contents of every schedule type (on/off byte, enabled and disabled), well-formed and with one later field
+    out of range (such a group is undecodable as a whole, but a decoder may already have taken the type from it)."""
+    out = {}
+    if fmt != "v2":
+        return {"t_badpower": "0d1e0e287fffff1a", "t_badonoff": "0d1e0e280032551a", "t_badday": "0d1e0e280032ff80"}
+    for oo in (0x01, 0x02, 0x03, 0x04, 0x05, 0x06, 0xFE, 0xFD, 0xFC, 0xFB, 0xFA, 0xF9):
+        for name, soc, months in (("ok", "0064", "0000"), ("socffff", "ffff", "0000"), ("soc101", "0065", "0000"), ("monthsffff", "0064", "ffff")):
+            out[f"t{oo:02x}_{name}"] = "0d1e0e28" + f"{oo:02x}" + "1a" + "0032" + soc + months      # not an every-day 24 h group
+    return out
+
+
 VARIANTS = [  # name, family, tag, port, refused blocks, es firmware, group format, group-1 address (registers)
     ("et205_v2", "ET", "ETU", 8899, (), "", "v2", 47547),
     ("et205_v2_tcp", "ET", "ETU", 502, (), "", "v2", 47547),
@@ -253,6 +267,10 @@ def check(prop: str, tier: str, seed: int) -> int:
                     # the other three groups start empty, as enabled 24/7 groups, or as another enabled schedule
                     others = ("zeros", "charge247", "discharge247" if variant[6] != "v2" else "peak")[len(progs) % 3]
                     progs.append(mode_program(variant, prior, hx, mode, p, s, others, start_mode=(len(progs) // 3) % 6))
+        for prior, hx in typed_priors(variant[6]).items():
+            for mode in ((98, 99, 3) if quick else (0, 1, 2, 3, 4, 5, 98, 99)):
+                for p, s in (grid[2:3] if quick else grid[:3]):
+                    progs.append(mode_program(variant, prior, hx, mode, p, s, "zeros", start_mode=(len(progs) // 3) % 6))
     if not quick:
         v = VARIANTS[0]
         for p in range(1, 101):
